@@ -197,8 +197,18 @@ fn render_value(v: &str) -> String {
 
 const PREAMBLE: &str = "ha = array a \"b c\" \"\" é\nhe = array\nhm = map\nx = map_put ${hm} k v\nx = map_put ${hm} \"k 2\" \"${ha}\"\nhs = set_new x y\nhb = string_to_bytes héllo\nhr = array gone\nx = release ${hr}\nv1 = set \"text value\"\nv2 = set 42\nv3 = set \"\"\n";
 
-fn gen_line(t: &mut Tape, names: &[String], outs: &mut usize, st: &mut Stats, user: &[String]) -> String {
-    let cmd = if !user.is_empty() && t.chance(1, 10) { t.pick_ref(user).clone() } else { t.pick_ref(names).clone() };
+/// block openers and closers: never generated INSIDE a function or loop body, where an unbalanced one would move
+/// the end of the enclosing block (a function whose extent grows over a call to itself is user-written recursion)
+fn is_block_word(c: &str) -> bool {
+    use crate::flow::Spell;
+    Spell::IF.contains(&c) || Spell::ENDIF.contains(&c) || Spell::ENDWHILE.contains(&c) || Spell::ENDFOR.contains(&c) || Spell::ENDFN.contains(&c)
+}
+
+fn gen_line(t: &mut Tape, names: &[String], outs: &mut usize, st: &mut Stats, user: &[String], in_body: bool) -> String {
+    let mut cmd = if !user.is_empty() && t.chance(1, 10) { t.pick_ref(user).clone() } else { t.pick_ref(names).clone() };
+    if in_body && is_block_word(&cmd) {
+        cmd = "noop".to_string();
+    }
     let ctx = safe_context();
     let sig = match ctx.commands.get(&cmd) {
         Some(c) => signature_of(&c.help(), &cmd),
@@ -261,7 +271,7 @@ fn case_commands_with(t: &mut Tape, st: &mut Stats, max_lines: usize) -> Verdict
     for _ in 0..n {
         match t.weighted(&[30, 1, 1, 1, 1]) {
             0 => {
-                let l = gen_line(t, &names, &mut outs, st, &user);
+                let l = gen_line(t, &names, &mut outs, st, &user, false);
                 script.push_str(&l);
                 script.push('\n');
             }
@@ -270,10 +280,11 @@ fn case_commands_with(t: &mut Tape, st: &mut Stats, max_lines: usize) -> Verdict
                 st.class("exit_on_error-toggle");
             }
             2 => {
-                // a finite for loop over an array with a few command lines
-                script.push_str("for item in ${ha}\n");
+                // a finite for loop: it iterates over an array of its own that no generated line can name,
+                // so the body cannot grow it (a body pushing to the iterated array is a user-written endless loop)
+                script.push_str("hloop = array 1 2 3\nfor item in ${hloop}\n");
                 for _ in 0..1 + t.below(2) {
-                    let l = gen_line(t, &names, &mut outs, st, &[]);
+                    let l = gen_line(t, &names, &mut outs, st, &[], true);
                     script.push_str("    ");
                     script.push_str(&l);
                     script.push('\n');
@@ -297,7 +308,7 @@ fn case_commands_with(t: &mut Tape, st: &mut Stats, max_lines: usize) -> Verdict
                 let name = format!("myfn{}", user.len());
                 script.push_str(&format!("fn {}\n", name));
                 for _ in 0..1 + t.below(2) {
-                    let l = gen_line(t, &names, &mut outs, st, &[]);
+                    let l = gen_line(t, &names, &mut outs, st, &[], true);
                     script.push_str("    ");
                     script.push_str(&l);
                     script.push('\n');
